@@ -3562,6 +3562,18 @@ class State:
 
     def patch_indirect_dependencies(self, module_refs: set[str], types: set[Type]) -> None:
         assert self.ancestors is not None
+        # Indirect dependencies are recomputed from scratch below, so forget those
+        # inherited from the previous cache entry: a stale one would otherwise be kept
+        # (and written back to the cache) until the module itself is edited.
+        for dep in self.dependencies + self.suppressed:
+            if self.priorities.get(dep) == PRI_INDIRECT:
+                if dep in self.dependencies_set:
+                    self.dependencies.remove(dep)
+                    self.dependencies_set.remove(dep)
+                if dep in self.suppressed_set:
+                    self.suppressed.remove(dep)
+                    self.suppressed_set.remove(dep)
+                del self.priorities[dep]
         existing_deps = set(self.dependencies + self.suppressed + self.ancestors)
         existing_deps.add(self.id)
 
